@@ -792,7 +792,33 @@ func coversCloseEvents(site ssa.Instruction) (bool, string) {
 		return false
 	}
 	reached := func(k string, closing bool) bool {
-		edgeOK := func(from, to *ssa.BasicBlock) bool {
+		edgeOK := eventEdgeOK(isEv, k, closing)
+		return existsPathEdges(fn, nil, func(in ssa.Instruction) bool { return in == site }, nil, edgeOK) != nil
+	}
+	var missing, extra []string
+	for _, k := range closeEvents {
+		if !reached(k, true) {
+			missing = append(missing, k)
+		}
+	}
+	for _, k := range otherEvents {
+		if reached(k, false) {
+			extra = append(extra, k)
+		}
+	}
+	if len(extra) > 0 && len(missing) == 0 {
+		return false, "also reached for the event(s) " + strings.Join(extra, ",") + ", which do not end the connection"
+	}
+	if len(missing) > 0 {
+		return false, "not reached for the close event(s) " + strings.Join(missing, ",")
+	}
+	return true, ""
+}
+
+// eventEdgeOK: an edge filter that evaluates the If conditions on the ConnectionEvent value ev for the concrete event k
+// (closing says whether k is one of the closing events); conditions on anything else are followed both ways.
+func eventEdgeOK(isEv func(ssa.Value) bool, k string, closing bool) func(from, to *ssa.BasicBlock) bool {
+	return func(from, to *ssa.BasicBlock) bool {
 			ifi, ok := from.Instrs[len(from.Instrs)-1].(*ssa.If)
 			if !ok {
 				return true
@@ -843,25 +869,52 @@ func coversCloseEvents(site ssa.Instruction) (bool, string) {
 				val = !val
 			}
 			return val == takenTrue
+			}
+}
+
+// eventParamOf: the function's ConnectionEvent parameter and a predicate recognising it (also when spilled).
+func eventParamOf(fn *ssa.Function) (ssa.Value, func(ssa.Value) bool) {
+	var ev ssa.Value
+	for _, p := range fn.Params {
+		if strings.HasSuffix(p.Type().String(), "api.ConnectionEvent") {
+			ev = p
 		}
-		return existsPathEdges(fn, nil, func(in ssa.Instruction) bool { return in == site }, nil, edgeOK) != nil
 	}
-	var missing, extra []string
+	return ev, func(v ssa.Value) bool {
+		if ev == nil {
+			return false
+		}
+		if v == ev {
+			return true
+		}
+		if u, ok := v.(*ssa.UnOp); ok {
+			if al, ok := u.X.(*ssa.Alloc); ok {
+				for _, r := range refs(al) {
+					if st, ok := r.(*ssa.Store); ok && st.Addr == ssa.Value(al) && st.Val == ev {
+						return true
+					}
+				}
+			}
+		}
+		return false
+	}
+}
+
+// mustRunOnCloseEvents: for every closing event, no path from the function's entry to a return avoids site.
+func mustRunOnCloseEvents(site ssa.Instruction) (bool, string) {
+	fn := site.Parent()
+	ev, isEv := eventParamOf(fn)
+	if ev == nil {
+		return false, "no ConnectionEvent parameter"
+	}
+	var missing []string
 	for _, k := range closeEvents {
-		if !reached(k, true) {
+		if existsPathEdges(fn, nil, isReturn, func(in ssa.Instruction) bool { return in == site }, eventEdgeOK(isEv, k, true)) != nil {
 			missing = append(missing, k)
 		}
 	}
-	for _, k := range otherEvents {
-		if reached(k, false) {
-			extra = append(extra, k)
-		}
-	}
-	if len(extra) > 0 && len(missing) == 0 {
-		return false, "also reached for the event(s) " + strings.Join(extra, ",") + ", which do not end the connection"
-	}
 	if len(missing) > 0 {
-		return false, "not reached for the close event(s) " + strings.Join(missing, ",")
+		return false, "can be skipped for the close event(s) " + strings.Join(missing, ",")
 	}
 	return true, ""
 }
